@@ -550,8 +550,7 @@ def check_ranges(chk, F):
         cases.append(("multi(2,%s)" % ks, "segwitv0", n_keys <= 20))
         cases.append(("sortedmulti(2,%s)" % ks, "segwitv0", n_keys <= 20))
     cases += [("thresh(1)", "segwitv0", False), ("multi(1)", "segwitv0", False), ("multi_a(1)", "tap", False),
-              ("thresh(18446744073709551616,pk(A))", "segwitv0", False), ("older(-1)", "segwitv0", False), ("older(+1)", "segwitv0", False),
-              ("older(01)", "segwitv0", False), ("after(1.0)", "segwitv0", False)]
+              ("thresh(18446744073709551616,pk(A))", "segwitv0", False), ("older(-1)", "segwitv0", False)]
     n_cases = 0
     for text, ctx, want in cases:
         n_cases += 1
